@@ -230,13 +230,15 @@ package actor
 
 //@ func (Inboxer).Start(proc)
 //@   abstract
-//@   modifies
+//@   modifies startPerm
 //@   emits InboxStart(self, proc)
 
 //@ func (Inboxer).Stop()
 //@   abstract
-//@   modifies
+//@   requires[C02.stop.only-worker-or-unstarted-owner] tok || startPerm
+//@   modifies stoppedByMe
 //@   emits InboxStop(self)
+//@   ensures stoppedByMe
 
 //@ func (Inboxer).Send(env)
 //@   abstract
@@ -255,11 +257,13 @@ package actor
 //@   ensures fresh(result)
 
 //@ func (*process).cleanup(cancel)
-//@   props C06 C07 C13 C04 C08 C10 C12
+//@   props C06 C07 C13 C04 C08 C10 C12 C02
 //@   requires procInv(p) && curproc == p && !isnil(p.context.receiver)
 //@   requires[C04.cleanup.live] phase == 1 || phase == 2 || (phase == 3 && afterCrash)
+//@   requires[C02.cleanup.on-owner-thread] tok || startPerm
 //@   nopanic[C06.cleanup.nopanic]
-//@   modifies heap except private, p.context.message, phase, log, loglen
+//@   modifies heap except private, p.context.message, phase, log, loglen, stoppedByMe
+//@   ensures[C02.cleanup.inbox-stopped-by-owner] stoppedByMe
 //@   ghost at entry: lb = 0; log0 = log
 //@   ghost at call Delete#1: emit ChildUnlink(arg0, arg1)
 //@   ghost at call Children#1: lb = loglen; log0 = log
@@ -297,12 +301,15 @@ package actor
 //@   pure
 
 //@ func (*process).tryRestart(v)
-//@   props C05 C06 C04 C12
+//@   props C05 C06 C04 C12 C02
 //@   requires procInv(p) && curproc == p && !isnil(p.context.receiver) && budgetInv(p) && !afterCrash && mbufOK(p)
 //@   requires !(istype(v, *InternalError) && v.(*InternalError) == nil)
 //@   requires[C05.restart.failed-incarnation-stopped] phase == 3
+//@   requires[C02.restart.on-owner-thread] (tok || startPerm) && !stoppedByMe
 //@   nopanic[C05.tryrestart.nopanic]
-//@   modifies heap except private, p.context.receiver, p.context.message, p.context.sender, p.mbuffer, p.restarts, phase, log, loglen, afterCrash
+//@   modifies heap except private, p.context.receiver, p.context.message, p.context.sender, p.mbuffer, p.restarts, phase, log, loglen, afterCrash, stoppedByMe, startPerm
+//@   ensures[C02.restart.alive-means-inbox-not-stopped] phase == 2 ==> !stoppedByMe
+//@   ensures tok == old(tok)
 //@   ghost at call cleanup#1 before: afterCrash = true
 //@   ghost at call Start#2 before: assert[C05.restart.counted] p.restarts == entry(p.restarts) + 1
 //@   ghost at call Start#2 before: assert[C12.restart.event] loglen == entry(loglen) + 1 && isev(log[entry(loglen)], Broadcast) && log[entry(loglen)].Broadcast_e == p.context.engine && istype(log[entry(loglen)].Broadcast_msg, ActorRestartedEvent) &&
@@ -318,11 +325,16 @@ package actor
 //@   ensures[C04.tryrestart.log-prefix] loglen >= entry(loglen) && forall(k, 0 <= k && k < entry(loglen) ==> log[k] == entry(log)[k])
 
 //@ func (*process).Start()
-//@   props C04 C05 C13 C12 C06
+//@   props C04 C05 C13 C12 C06 C02
 //@   requires procInv(p) && curproc == p && budgetInv(p) && !afterCrash && mbufOK(p)
 //@   requires[C04.start.no-live-incarnation] phase == 3
+//@   requires[C02.start.on-owner-thread] (tok || startPerm) && !stoppedByMe
 //@   nopanic[C05.start.nopanic]
-//@   modifies heap except private, p.context.receiver, p.context.message, p.context.sender, p.mbuffer, p.restarts, phase, log, loglen, afterCrash
+//@   modifies heap except private, p.context.receiver, p.context.message, p.context.sender, p.mbuffer, p.restarts, phase, log, loglen, afterCrash, stoppedByMe, startPerm
+//@   ghost at call Start#1 before: assert[C02.start.only-unstarted-or-running] !replayed ==> startPerm || (tok && !stoppedByMe)
+//@   ghost at call Start#1 before: assert[C02.start.only-unstarted-or-running@after-replay] replayed ==> startPerm || (tok && !stoppedByMe)
+//@   ensures[C02.start.alive-means-inbox-not-stopped] phase == 2 ==> !stoppedByMe
+//@   ensures tok == old(tok)
 //@   ghost at entry: replayed = false; replayedAll = false
 //@   ghost at call Invoke#1 before: replayedAll = arg1 == old(p.mbuffer) && arg0 == p && phase == 2
 //@   ghost at call Invoke#1: replayed = true
@@ -365,12 +377,15 @@ package actor
 //@   ghost at call Receive#1 before: assert[C01.invokemsg.context] p.context.message == msg.Msg && p.context.sender == msg.Sender
 
 //@ func (*process).Invoke(msgs)
-//@   props C01 C05 C07 C04 C13 C06
+//@   props C01 C05 C07 C04 C13 C06 C02
 //@   requires procInv(p) && curproc == p && !isnil(p.context.receiver) && budgetInv(p) && !afterCrash
 //@   requires[C04.invoke.started] phase == 2
 //@   requires forall(k, 0 <= k && k < len(msgs) ==> !isLifecycle(msgs[k].Msg))
+//@   requires[C02.invoke.only-the-worker] (tok || startPerm) && !stoppedByMe
 //@   nopanic[C05.invoke.nopanic]
-//@   modifies heap except private, p.context.receiver, p.context.message, p.context.sender, p.mbuffer, p.restarts, phase, log, loglen, afterCrash
+//@   modifies heap except private, p.context.receiver, p.context.message, p.context.sender, p.mbuffer, p.restarts, phase, log, loglen, afterCrash, stoppedByMe, startPerm
+//@   ensures[C02.invoke.alive-means-inbox-not-stopped] phase == 2 ==> !stoppedByMe
+//@   ensures tok == old(tok)
 //@   ensures[C04.invoke.phase] phase == 2 || phase == 3
 //@   ensures phase == 2 ==> !afterCrash
 //@   ensures[C06.budget.bounded] budgetInv(p)
@@ -387,7 +402,7 @@ package actor
 //@        isev(log[loglen - ite(pill.cancel != nil, 1, 0) - 2], Deliver) && istype(log[loglen - ite(pill.cancel != nil, 1, 0) - 2].Deliver_msg, Stopped)
 //@   loop 1
 //@     invariant 0 <= i && i <= len(msgs) && nproc == i && processed == i && nmsg == len(msgs)
-//@     invariant phase == 2 && !afterCrash && procInv(p) && curproc == p && !isnil(p.context.receiver) && budgetInv(p) && p.context.receiver == old(p.context.receiver)
+//@     invariant phase == 2 && !afterCrash && procInv(p) && curproc == p && !isnil(p.context.receiver) && budgetInv(p) && p.context.receiver == old(p.context.receiver) && (tok || startPerm) && !stoppedByMe && tok == old(tok)
 //@     invariant forall(k, 0 <= k && k < len(msgs) ==> msgs[k] == old(msgs[k]))
 //@     invariant loglen == entry(loglen) + i
 //@     invariant forall(k, 0 <= k && k < i ==> log[entry(loglen) + k] == deliveryOf(p, msgs[k].Msg, msgs[k].Sender))
@@ -397,7 +412,7 @@ package actor
 //@   loop 2
 //@     invariant rangeindex >= -1 && rangeindex < len(msgsToProcess) && len(msgsToProcess) == len(msgs) - processed && msgsToProcess.arr == msgs.arr && msgsToProcess.off == msgs.off + processed
 //@     invariant 0 <= i && i < len(msgs) && nproc == i + 1 && processed == i && nmsg == len(msgs) && isPill(msgs[i].Msg) && msg == msgs[i] && pill == msg.Msg.(poisonPill)
-//@     invariant phase == 2 && !afterCrash && procInv(p) && curproc == p && !isnil(p.context.receiver) && budgetInv(p) && p.context.receiver == old(p.context.receiver)
+//@     invariant phase == 2 && !afterCrash && procInv(p) && curproc == p && !isnil(p.context.receiver) && budgetInv(p) && p.context.receiver == old(p.context.receiver) && (tok || startPerm) && !stoppedByMe && tok == old(tok)
 //@     invariant forall(k, 0 <= k && k < len(msgs) ==> msgs[k] == old(msgs[k]))
 //@     invariant loglen >= entry(loglen) + i
 //@     invariant forall(k, 0 <= k && k < i ==> log[entry(loglen) + k] == deliveryOf(p, msgs[k].Msg, msgs[k].Sender))
@@ -516,7 +531,8 @@ package actor
 
 //@ func (Processer).Invoke(msgs)
 //@   abstract
-//@   modifies heap except H$actor.Inbox$proc H$actor.Inbox$rb H$actor.Inbox$scheduler
+//@   requires[C02.invoke.only-the-worker] tok || startPerm
+//@   modifies heap except H$actor.Inbox$rb H$actor.Inbox$scheduler, stoppedByMe
 //@   emits ProcInvoke(self, msgs)
 
 //@ func (Scheduler).Schedule(fn)
@@ -533,27 +549,108 @@ package actor
 //@   modifies
 //@   emits InboxSend(p.inbox, msg, sender)
 
+// ---------------------------------------------------------------------------
+// The inbox state word (C02 C03): global-invariant mode. Shared state of one
+// Inbox: procStatus (S), the ring length rb.len (L), proc, and the ghost counters
+//   tokens  worker tokens in existence (a worker = the goroutine allowed to pop
+//           from the ring and to call proc.Invoke)
+//   wakers  threads that currently owe a schedule() call
+// Thread-local ghost (never touched by other threads): tok (this thread is the
+// worker), owes (this thread owes a schedule()), starter (this thread won the
+// stopped->starting CAS), startPerm (this thread created the inbox and nobody
+// has started it yet), stoppedByMe (this thread stored `stopped`).
+// Before every atomic step the shared state is havoced subject to the
+// invariant and the stable clauses; after it the invariant is re-proved.
+// Who may stop: only the worker or the not-yet-started owner (process inboxes;
+// remote stream writers stop their inbox from other goroutines and are outside
+// this claim).
+
+//@ ghost var tokens Int
+//@ ghost var wakers Int
+//@ ghost var tok Bool
+//@ ghost var owes Bool
+//@ ghost var starter Bool
+//@ ghost var startPerm Bool
+//@ ghost var stoppedByMe Bool
+//@ ghost var published Bool
+
+//@ protocol Inbox(in)
+//@   shared in.procStatus, in.rb.len, in.proc, tokens, wakers
+//@   steps call CompareAndSwapInt32, call SwapInt32, call StoreInt32, call LoadInt32, call Push, call PopN, call Len, store proc
+//@   inv[C02.inv.at-most-one-worker] tokens == 0 || tokens == 1
+//@   inv[C02.inv.running-has-worker] in.procStatus == running ==> tokens == 1
+//@   inv[C02.inv.idle-or-starting-has-no-worker] in.procStatus == idle || in.procStatus == starting ==> tokens == 0
+//@   inv[C03.inv.idle-and-nonempty-has-waker] in.procStatus == idle && in.rb.len > 0 ==> wakers > 0
+//@   inv[C02.inv.proc-published-before-any-worker] in.procStatus == idle || in.procStatus == running ==> !isnil(in.proc)
+//@   inv[C02.inv.ranges] wakers >= 0 && in.rb.len >= 0 && in.procStatus >= 0 && in.procStatus <= 3
+//@   stable[C02.stable.worker] tok ==> tokens == 1 && !isnil(in.proc) && (in.procStatus == running || (in.procStatus == stopped && stoppedByMe))
+//@   stable[C03.stable.debt] owes ==> wakers >= 1
+//@   stable[C02.stable.starter] starter ==> in.procStatus == starting && tokens == 0 && (published ==> !isnil(in.proc))
+//@   stable[C02.stable.start-permission] startPerm ==> in.procStatus == stopped && tokens == 0
+
+//@ pred inboxOK(in) := in != nil && in.rb != nil && !isnil(in.scheduler)
+
 //@ func (*Inbox).schedule()
-//@   props C01
-//@   requires in != nil && !isnil(in.scheduler)
-//@   modifies in.procStatus
+//@   props C02 C03 C01
+//@   requires inboxOK(in) && owes
+//@   modifies in.procStatus, tokens, wakers, owes
+//@   ghost at entry: handoff = false
+//@   ghost at call CompareAndSwapInt32#1 on success: tokens = tokens + 1; handoff = true
+//@   ghost at call CompareAndSwapInt32#1: wakers = wakers - 1; owes = false
+//@   ghost at call Schedule#1 before: assert[C02.schedule.hands-the-new-token-to-process] handoff && arg0 == boundmethod(in, "process")
+//@   ghost at call Schedule#1: handoff = false
+//@   ghost at return#1: assert[C02.schedule.no-token-leak] !handoff
+//@   ensures[C03.exit.no-debt] !owes
 
 //@ func (*Inbox).Send(msg)
-//@   props C01 C03
-//@   requires in != nil && in.rb != nil && !isnil(in.scheduler)
-//@   modifies in.procStatus, in.rb.content, in.rb.len, in.rb.content.*, elements(in.rb.content.items)
-//@   ghost at call Push#1: emit RingPush(arg0, arg1.Msg, arg1.Sender)
-//@   ghost at call schedule#1 before: assert[C03.send.push-before-schedule] loglen == entry(loglen) + 1
+//@   props C01 C02 C03
+//@   requires inboxOK(in) && !owes
+//@   modifies in.procStatus, in.rb.content, in.rb.len, in.rb.content.*, elements(in.rb.content.items), tokens, wakers, owes
+//@   ghost at call Push#1: emit RingPush(arg0, arg1.Msg, arg1.Sender); wakers = wakers + 1; owes = true
+//@   ghost at call schedule#1 before: assert[C03.send.push-before-schedule] loglen == entry(loglen) + 1 && owes
 //@   emits RingPush(in.rb, msg.Msg, msg.Sender)
+//@   ensures[C03.exit.no-debt] !owes
+
+//@ func (*Inbox).process()
+//@   props C02 C03
+//@   requires inboxOK(in) && tok && !owes
+//@   ghost at call CompareAndSwapInt32#1 on success: tokens = tokens - 1; tok = false; wakers = wakers + 1; owes = true
+//@   ghost at call CompareAndSwapInt32#1 on failure: tokens = tokens - 1; tok = false
+//@   ghost at call Len#1: wakers = ite(result == 0, wakers - 1, wakers); owes = result != 0
+//@   ensures[C03.exit.no-debt] !owes
+//@   ensures[C02.process.releases-the-token] !tok
 
 //@ func (*Inbox).run()
-//@   props C01
-//@   requires in != nil && in.rb != nil && !isnil(in.scheduler) && !isnil(in.proc)
+//@   props C01 C02 C03
+//@   requires inboxOK(in) && tok && !owes
 //@   ghost at call PopN#1 before: assert[C01.run.pops-own-ring] arg0 == in.rb && arg1 >= 1
+//@   ghost at call PopN#1 before: assert[C02.pop.only-the-worker] tok
 //@   ghost at call PopN#1: popped = result0
 //@   ghost at call Invoke#1 before: assert[C01.run.batch-whole-to-own-processer] recv == in.proc && arg0 == popped && len(arg0) > 0
+//@   ghost at call Invoke#1 before: assert[C02.invoke.only-the-worker] tok
+//@   modifies heap except H$actor.Inbox$rb H$actor.Inbox$scheduler, stoppedByMe, tokens, wakers, log, loglen
+//@   ensures[C02.run.keeps-the-token] tok && !owes && inboxOK(in)
 //@   loop 1
-//@     invariant in.rb != nil && !isnil(in.scheduler) && !isnil(in.proc)
+//@     invariant inboxOK(in) && tok && !owes
+
+//@ func (*Inbox).Start(proc)
+//@   props C02 C03 C04
+//@   requires inboxOK(in) && !isnil(proc) && !owes && !starter && !published
+//@   requires[C02.start.only-unstarted-or-running] startPerm || (tok && !stoppedByMe)
+//@   modifies in.procStatus, in.proc, tokens, wakers, owes, starter, startPerm, published
+//@   ghost at entry: handoff = false
+//@   ghost at call CompareAndSwapInt32#1 on success: startPerm = false; starter = true
+//@   ghost at store proc#1: assert[C02.proc.written-only-by-the-starter] starter; published = true
+//@   ghost at call SwapInt32#1: starter = false; published = false; wakers = wakers + 1; owes = true
+//@   ensures[C03.exit.no-debt] !owes && !starter
+
+//@ func (*Inbox).Stop()
+//@   props C02 C03
+//@   requires in != nil
+//@   requires[C02.stop.only-worker-or-unstarted-owner] tok || startPerm
+//@   modifies in.procStatus, stoppedByMe
+//@   ghost at call StoreInt32#1: stoppedByMe = true
+//@   ensures stoppedByMe
 
 // BroadcastEvent is used by every caller through its abstract contract (one
 // Broadcast entry in the effect log). Its body is checked here against what
@@ -690,3 +787,25 @@ package actor
 //@   ghost at call add#1 before: assert[C11.request.registers-response] arg0 == e.Registry && loglen == entry(loglen)
 //@   ghost at call SendWithSender#1 before: assert[C11.request.sends-after-registering-with-response-as-sender] arg1 == pid && arg2 == msg && arg3 == resp.pid && loglen > entry(loglen)
 //@   ensures[C11.request.response] result != nil && fresh(result) && result.engine == e
+
+//@ func (*Context).Sender()
+//@   props C11 C20
+//@   requires c != nil
+//@   pure
+//@   ensures result == c.sender
+
+// addressedTo(ev, pid): the log entry ev is the outcome of a send to pid
+// (delivery to a processer, dead letter, remote-missing event or remote send).
+//@ pred addressedTo(ev, pid) := (isev(ev, ProcSend) && ev.ProcSend_target == pid) || (isev(ev, RemoteSend) && ev.RemoteSend_pid == pid) ||
+//@      (isev(ev, Broadcast) && ((istype(ev.Broadcast_msg, DeadLetterEvent) && ev.Broadcast_msg.(DeadLetterEvent).Target == pid) || (istype(ev.Broadcast_msg, EngineRemoteMissingEvent) && ev.Broadcast_msg.(EngineRemoteMissingEvent).Target == pid)))
+//@ pred carries(ev, m) := (isev(ev, ProcSend) && ev.ProcSend_msg == m) || (isev(ev, RemoteSend) && ev.RemoteSend_msg == m) ||
+//@      (isev(ev, Broadcast) && ((istype(ev.Broadcast_msg, DeadLetterEvent) && ev.Broadcast_msg.(DeadLetterEvent).Message == m) || (istype(ev.Broadcast_msg, EngineRemoteMissingEvent) && ev.Broadcast_msg.(EngineRemoteMissingEvent).Message == m)))
+
+// The default scheduler: the function handed to Schedule is started exactly
+// once, on a new goroutine (which thereby receives the worker token).
+//@ func (goscheduler).Schedule(fn)
+//@   props C02
+//@   modifies
+//@   ghost at entry: spawned = 0
+//@   ghost at go fn: spawned = spawned + 1
+//@   ghost at return#1: assert[C02.scheduler.starts-fn-exactly-once] spawned == 1
